@@ -89,7 +89,7 @@ def _install_points():
 
 
 _install_points()
-KINDS = ["gen", "str", "raise", "crash", "404", "badbody"]
+KINDS = ["gen", "str", "raise", "crash", "404", "badbody", "chunkbody"]
 STATUS = [200, 404]
 
 
@@ -99,7 +99,7 @@ class Err:
 
 
 def env_for(kind, seg, qs, cookie):
-    path = {"gen": "/g/", "str": "/s/", "raise": "/r/", "crash": "/c/", "404": "/nope/", "badbody": "/m/"}[kind] + seg
+    path = {"gen": "/g/", "str": "/s/", "raise": "/r/", "crash": "/c/", "404": "/nope/", "badbody": "/m/", "chunkbody": "/b/"}[kind] + seg
     env = {"REQUEST_METHOD": "GET", "PATH_INFO": path, "QUERY_STRING": qs, "HTTP_COOKIE": "c=" + cookie, "SERVER_NAME": "h",
            "SERVER_PORT": "80", "wsgi.url_scheme": "http", "wsgi.errors": Err(), "SERVER_PROTOCOL": "HTTP/1.1",
            "HTTP_X_IN": "in-" + seg}
@@ -112,6 +112,12 @@ def env_for(kind, seg, qs, cookie):
                     "wsgi.input": io.BytesIO(body)})
         if cookie != "c1":       # T1 is a browser, the others JSON clients: the error documents differ in type and length
             env["HTTP_ACCEPT"] = "application/json"
+    if kind == "chunkbody":
+        # a raw body in chunked framing (two chunks, sizes 1x and 0x1y digits), different for every thread
+        import io
+        first, second = ("first-" + cookie).encode(), (seg + "-" + "z" * 17 + "-" + cookie).encode()
+        raw = b"%x\r\n%s\r\n%X;ext=1\r\n%s\r\n0\r\n\r\n" % (len(first), first, len(second), second)
+        env.update({"REQUEST_METHOD": "POST", "HTTP_TRANSFER_ENCODING": "chunked", "wsgi.input": io.BytesIO(raw)})
     return env
 
 
@@ -173,6 +179,14 @@ def build_app(sched):
         writes(x)
         sched("after_writes")
         return "fields:" + ",".join(app.request.forms)
+
+    @app.route("/b/:x", method="POST")
+    def b(x):
+        sched("handler_entry")
+        data = app.request.body.read()
+        writes(x)
+        sched("after_writes")
+        return b"body:" + data
 
     @app.route("/c/:x")
     def c(x):
@@ -355,7 +369,7 @@ def make_stmt(k0, k1):
 def queries(tier):
     T = tier == "thorough"
     out = []
-    pairs = [("str", "str"), ("gen", "raise"), ("badbody", "badbody"), ("404", "str")]
+    pairs = [("str", "str"), ("gen", "raise"), ("badbody", "badbody"), ("404", "str"), ("chunkbody", "chunkbody")]
     if T:
         pairs += [(a, b) for a in KINDS for b in KINDS if (a, b) not in pairs]
     for k0, k1 in pairs:
@@ -368,7 +382,7 @@ def queries(tier):
                      timeout=700 if not T else 1000, per_path_timeout=60, expect_cover=["preempted"], family="stmt",
                      config={"t0": k0, "t1": k1, "statements": n0}))
     combos = [("gen", "gen", None), ("gen", "str", None), ("str", "raise", None), ("gen", "crash", None), ("raise", "404", None),
-              ("badbody", "badbody", None), ("str", "badbody", None), ("gen", "gen", "str")]
+              ("badbody", "badbody", None), ("str", "badbody", None), ("gen", "gen", "str"), ("chunkbody", "chunkbody", None)]
     if T:
         combos += [(a, b, None) for a in KINDS for b in KINDS if (a, b, None) not in combos]
         combos += [("gen", "raise", "crash"), ("str", "gen", "gen"), ("crash", "gen", "404")]
